@@ -4,6 +4,7 @@ CONSTANTS
   BlockSize = 5
   HeaderLen = 2
   ReplaySkipsIoErrors = TRUE
+  RecoveryGcErrorsIgnored = FALSE
   FaultModes = {"none", "once", "forever"}
 SPECIFICATION Spec
 INVARIANTS FaultReported Progress ResultSane
